@@ -1,8 +1,8 @@
 
 // ---------------------------------------------------------------------------------------------
-// verif_cex: small-scope exhaustive differential harness for src/validators/line_pattern.rs
-// unit: V3                         (see /verif/cex/README.md, /verif/cex/MAP.json)
-// This text is appended verbatim to a scratch copy of src/validators/line_pattern.rs.
+// verif_cex: small-scope exhaustive differential harnesses for src/validators/line_count.rs
+// units: V4 V4p V4a                (see /verif/cex/README.md, /verif/cex/MAP.json)
+// This text is appended verbatim to a scratch copy of src/validators/line_count.rs.
 // ---------------------------------------------------------------------------------------------
 #[cfg(test)]
 #[allow(unused_imports, dead_code, clippy::all)]
@@ -306,66 +306,111 @@ mod verif_cex {
         Ok(CexArc::new(ValidationContext::new(map)))
     }
 
-    /// A family of anchored and unanchored patterns, each with a hand-written reference matcher
-    /// on the trimmed line (the oracle never runs a regex).
-    #[derive(Clone, Copy)]
-    struct Pat {
-        regex: &'static str,
-        matches: fn(&str) -> bool,
+    const OPS: [&str; 5] = ["<", "<=", "==", ">=", ">"];
+
+    fn ref_holds(op: &str, actual: u64, bound: u64) -> bool {
+        match op {
+            "<" => actual < bound,
+            "<=" => actual <= bound,
+            "==" => actual == bound,
+            ">=" => actual >= bound,
+            ">" => actual > bound,
+            _ => unreachable!(),
+        }
     }
 
-    const PATTERNS: [Pat; 6] = [
-        Pat { regex: "^ab$", matches: |t| t == "ab" },
-        Pat { regex: "ab", matches: |t| t.contains("ab") },
-        Pat { regex: "^a", matches: |t| t.starts_with('a') },
-        Pat { regex: "b$", matches: |t| t.ends_with('b') },
-        Pat { regex: "^[a-c]+$", matches: |t| !t.is_empty() && t.chars().all(|c| ('a'..='c').contains(&c)) },
-        Pat { regex: "^z$", matches: |t| t == "z" },
-    ];
-
-    fn trimmed_span(line: &str) -> Option<(usize, usize)> {
-        let first = line.char_indices().find(|(_, c)| !c.is_whitespace())?.0;
-        let (last, ch) = line.char_indices().rev().find(|(_, c)| !c.is_whitespace())?;
-        Some((first, last + ch.len_utf8()))
-    }
-
-    /// C08 oracle: the first non-blank line whose trimmed text has no match.
-    fn ref_line_pattern(pat: &Pat, lines: &[&str], built: &Built) -> Expect {
-        for (i, l) in lines.iter().enumerate() {
-            let Some((a, b)) = trimmed_span(l) else { continue };
-            if !(pat.matches)(&l[a..b]) {
-                let (line, col) = line_col(&built.text, built.line_offsets[i] + a);
-                return Expect::At { line, col_start: col, col_end: col + (b - a) - 1, key: l[a..b].to_string() };
+    /// C09 / DESIGN 6 V4: `trim(s)` = operator (longest first) . ws* . numeral; anything else is malformed.
+    fn ref_parse(s: &str) -> Option<(&'static str, u64)> {
+        let t = s.trim_matches(char::is_whitespace);
+        let op = ["<=", ">=", "==", "<", ">"].into_iter().find(|op| t.starts_with(*op))?;
+        let rest = t[op.len()..].trim_matches(char::is_whitespace);
+        if rest.is_empty() || !rest.chars().all(|c| c.is_ascii_digit()) {
+            return None;
+        }
+        let mut v: u128 = 0;
+        for c in rest.chars() {
+            v = v * 10 + (c as u8 - b'0') as u128;
+            if v > u64::MAX as u128 {
+                return None;
             }
         }
-        Expect::Clean
+        Some((op, v as u64))
     }
 
-    fn run_case(parsers: &Parsers, layout: usize, pat: &Pat, lines: &[&str], cases: &mut u64) {
-        let built = build(layout, &format!("line-pattern=\"{}\"", pat.regex), lines);
+    fn is_blank(line: &str) -> bool {
+        line.chars().all(char::is_whitespace)
+    }
+
+    /// Checks one validate() outcome: silent iff `actual op bound` holds; else exactly one
+    /// `line-count` diagnostic spanning the start tag `<`..`>` and carrying (actual, op, bound).
+    fn outcome_ok(
+        observed: &anyhow::Result<CexHashMap<CexPathBuf, Vec<Violation>>>,
+        built: &Built,
+        op: &str,
+        bound: u64,
+        actual: u64,
+    ) -> Result<(), Value> {
+        let (lt_line, lt_col) = line_col(&built.text, built.tag_lt);
+        let (gt_line, gt_col) = line_col(&built.text, built.tag_gt);
+        let holds = ref_holds(op, actual, bound);
+        let expected = if holds {
+            json!({"violations": []})
+        } else {
+            json!({"violations": [{"code": "line-count", "range": {"start": {"line": lt_line, "character": lt_col}, "end": {"line": gt_line, "character": gt_col}}, "data": {"actual": actual, "op": op, "expected": bound}}]})
+        };
+        let ok = match observed {
+            Err(_) => false,
+            Ok(m) => {
+                let all: Vec<&Violation> = m.values().flatten().collect();
+                if holds {
+                    all.is_empty()
+                } else {
+                    all.len() == 1
+                        && m.contains_key(&CexPathBuf::from(built.file_name))
+                        && all[0].code == "line-count"
+                        && (all[0].range.start.line, all[0].range.start.character) == (lt_line, lt_col)
+                        && (all[0].range.end.line, all[0].range.end.character) == (gt_line, gt_col)
+                        && all[0].data == Some(json!({"actual": actual, "op": op, "expected": bound}))
+                }
+            }
+        };
+        if ok { Ok(()) } else { Err(expected) }
+    }
+
+    fn check_outcome(
+        unit: &str,
+        what: &str,
+        input: Value,
+        observed: &anyhow::Result<CexHashMap<CexPathBuf, Vec<Violation>>>,
+        built: &Built,
+        op: &str,
+        bound: u64,
+        actual: u64,
+    ) {
+        if let Err(expected) = outcome_ok(observed, built, op, bound, actual) {
+            cex_fail(unit, what, input, expected, outcome_json(observed));
+        }
+    }
+
+    const WHAT: &str = "line-count: silent iff (number of non-blank content lines) OP N holds; otherwise exactly one diagnostic spanning the start tag from `<` to `>` and carrying actual, op, expected";
+
+    fn run_case(parsers: &Parsers, layout: usize, expr: &str, op: &str, bound: u64, lines: &[&str], cases: &mut u64) {
+        let built = build(layout, &format!("line-count=\"{expr}\""), lines);
+        let actual = lines.iter().filter(|l| !is_blank(l)).count() as u64;
         let input = json!({
             "file_name": built.file_name,
             "file_text": built.text,
             "layout": layout_name(layout),
-            "line-pattern": pat.regex,
+            "line-count": expr,
             "content_lines": lines,
         });
         let context = match context_of(parsers, built.file_name, &built.text) {
             Ok(c) => c,
-            Err(e) => cex_fail("V3", "generated one-block file failed to parse", input, json!("one block"), json!(e)),
+            Err(e) => cex_fail("V4", "generated one-block file failed to parse", input, json!("one block"), json!(e)),
         };
-        let expected = ref_line_pattern(pat, lines, &built);
-        let observed = LinePatternValidator::new().validate(context);
+        let observed = LineCountValidator::new().validate(context);
         *cases += 1;
-        if !agrees(&expected, &observed, "line-pattern", built.file_name, &built.text) {
-            cex_fail(
-                "V3",
-                "line-pattern: expected exactly one diagnostic at the first non-blank line whose trimmed text has no match (none if every non-blank line matches), at the file line / 1-based byte columns that delimit the trimmed line",
-                input,
-                expect_json(&expected),
-                outcome_json(&observed),
-            );
-        }
+        check_outcome("V4", WHAT, input, &observed, &built, op, bound, actual);
     }
 
     fn sequences(alphabet: &[&'static str], max_len: usize) -> Vec<Vec<&'static str>> {
@@ -387,70 +432,190 @@ mod verif_cex {
     }
 
     #[test]
-    fn cex_V3() {
+    fn cex_V4() {
         let parsers = parsers();
         let mut cases = 0u64;
-        // matching, non-matching, indented, trailing-blank, blank and partially matching lines
-        let alphabet = ["ab", "  ab", "ab  ", "xab", "abx", "", "  ", "cab", "a b"];
-        // (a) every sequence of <= 3 lines x every pattern (each case compiles a regex, ~1 ms in debug).
-        //     every 4-line sequence x {^ab$, ^a, b$}.
-        for seq in sequences(&alphabet, 4) {
-            if seq.len() <= 3 {
-                for pat in &PATTERNS {
-                    run_case(&parsers, 0, pat, &seq, &mut cases);
-                }
-            } else {
-                for pat in [&PATTERNS[0], &PATTERNS[2], &PATTERNS[3]] {
-                    run_case(&parsers, 0, pat, &seq, &mut cases);
+        // attributes as the tag parser yields them, per expression (cached)
+        let mut attr_cache: CexHashMap<String, CexHashMap<String, String>> = CexHashMap::new();
+        // (a) layout 0, fast path (one parse per line sequence, block re-labelled per expression):
+        //     every sequence of <= 7 lines over {x, '', '  '} x 5 operators x N in 0..=6.
+        for seq in sequences(&["x", "", "  "], 7) {
+            let built = build(0, "line-count", &seq);
+            let parsed = match context_of(&parsers, built.file_name, &built.text) {
+                Ok(c) => c,
+                Err(e) => cex_fail("V4", "generated one-block file failed to parse", json!({"file_text": built.text}), json!("one block"), json!(e)),
+            };
+            let block0 = parsed.blocks.values().next().unwrap().blocks_with_context[0].block.clone();
+            let actual = seq.iter().filter(|l| !is_blank(l)).count() as u64;
+            for op in OPS {
+                for bound in 0..=6u64 {
+                    let expr = format!("{op}{bound}");
+                    let attributes = attr_cache
+                        .entry(expr.clone())
+                        .or_insert_with(|| {
+                            let b = build(0, &format!("line-count=\"{expr}\""), &[]);
+                            let c = context_of(&parsers, b.file_name, &b.text).unwrap();
+                            c.blocks.values().next().unwrap().blocks_with_context[0].block.attributes.clone()
+                        })
+                        .clone();
+                    let mut block = block0.clone();
+                    block.attributes = attributes;
+                    let context = context_from_blocks(built.file_name, &built.text, vec![block]);
+                    let observed = LineCountValidator::new().validate(context);
+                    cases += 1;
+                    if let Err(expected) = outcome_ok(&observed, &built, op, bound, actual) {
+                        // Re-run through the full path (real tag text for this expression) to report it.
+                        let mut dummy = 0u64;
+                        run_case(&parsers, 0, &expr, op, bound, &seq, &mut dummy);
+                        cex_fail(
+                            "V4",
+                            "harness inconsistency: the re-labelled block disagreed with the oracle but the fully parsed file did not",
+                            json!({"file_text": built.text, "line-count": expr}),
+                            expected,
+                            outcome_json(&observed),
+                        );
+                    }
                 }
             }
         }
-        // (b) every sequence of 4..=5 lines over a 4-line alphabet x two patterns.
-        for seq in sequences(&["ab", "  xab ", "", "\tab\t"], 5) {
-            if seq.len() >= 4 {
-                run_case(&parsers, 0, &PATTERNS[0], &seq, &mut cases);
-                run_case(&parsers, 0, &PATTERNS[3], &seq, &mut cases);
-            }
-        }
-        // (c) every comment layout (C10), incl. `/* <block line-pattern="^z$"> */ b`.
+        // (b) every layout (content starting on the tag's line or not, comment continuing after
+        //     the tag, end tag sharing the last content line, multi-line tag): every sequence of
+        //     <= 4 lines over {x, '', ' \t'} x 5 operators x N in {0,1,2,3} x 2 spellings.
         for layout in 0..LAYOUTS {
-            for seq in sequences(&["ab", "  b", "", "\u{e9} x ", "z"], 2) {
-                run_case(&parsers, layout, &PATTERNS[0], &seq, &mut cases);
-                run_case(&parsers, layout, &PATTERNS[5], &seq, &mut cases);
+            for seq in sequences(&["x", "", " \t"], 4) {
+                for op in OPS {
+                    for bound in 0..=3u64 {
+                        let expr = if (bound + seq.len() as u64) % 2 == 0 { format!("{op}{bound}") } else { format!(" {op}  {bound} ") };
+                        run_case(&parsers, layout, &expr, op, bound, &seq, &mut cases);
+                    }
+                }
             }
         }
-        // (d) an uncompilable regex on a block with content is an error (C13).
-        for text in ["# <block line-pattern=\"(\">\na\n# </block>\n", "# <block line-pattern=\"[a-\">\n\n  ab\n# </block>\n"] {
-            let context = context_of(&parsers, "f.py", text).unwrap();
-            let observed = LinePatternValidator::new().validate(context);
+        // (c) blocks without any content count zero lines; nested blocks' tag lines count.
+        for op in OPS {
+            for bound in 0..=2u64 {
+                for (file_name, text, actual) in [
+                    ("f.rs", format!("/* <block line-count=\"{op}{bound}\"> *//* </block> */\n"), 0u64),
+                    ("f.rs", format!("/* <block line-count=\"{op}{bound}\"> </block> */\n"), 0),
+                    ("f.py", format!("# <block line-count=\"{op}{bound}\">\n# </block>\n"), 0),
+                    ("f.py", format!("# <block line-count=\"{op}{bound}\">\n# <block>\n# </block>\n# </block>\n"), 2),
+                    ("f.py", format!("# <block line-count=\"{op}{bound}\">\nx\n# <block name=\"i\">\n\ny\n# </block>\n# </block>\n"), 4),
+                ] {
+                    let context = context_of(&parsers, file_name, &text).unwrap();
+                    // keep only the outer block: the inner one carries no rule anyway
+                    let observed = LineCountValidator::new().validate(context);
+                    let tag = format!("<block line-count=\"{op}{bound}\">");
+                    let lt = text.find(&tag).unwrap();
+                    let gt = lt + tag.len() - 1;
+                    let built = Built { file_name, text: text.clone(), line_offsets: vec![], tag_lt: lt, tag_gt: gt };
+                    cases += 1;
+                    check_outcome(
+                        "V4",
+                        "line-count: a block with no content counts zero lines; tag lines of nested blocks count like any other line",
+                        json!({"file_name": file_name, "file_text": text, "line-count": format!("{op}{bound}")}),
+                        &observed,
+                        &built,
+                        op,
+                        bound,
+                        actual,
+                    );
+                }
+            }
+        }
+        // (d) malformed expressions are errors (C13).
+        for expr in ["", "5", "=5", "< =5", "<>5", "<5x", "< -1", "!=5", "<", "five", "<= 18446744073709551616"] {
+            let built = build(0, &format!("line-count=\"{expr}\""), &["x"]);
+            let context = context_of(&parsers, built.file_name, &built.text).unwrap();
+            let observed = LineCountValidator::new().validate(context);
             cases += 1;
             if observed.is_ok() {
+                cex_fail("V4", "line-count: a malformed expression is an error", json!({"file_name": built.file_name, "file_text": built.text, "line-count": expr}), json!({"error": "any"}), outcome_json(&observed));
+            }
+        }
+        // (e) large N and large blocks (random, seeded from VERIF_SEED).
+        let mut rng = Lcg::from_env();
+        for _ in 0..400 {
+            let len = rng.next(60) as usize;
+            let seq: Vec<&str> = (0..len).map(|_| ["x", "", "  ", "\tx y "][rng.next(4) as usize]).collect();
+            let actual = seq.iter().filter(|l| !is_blank(l)).count() as u64;
+            let bound = match rng.next(4) {
+                0 => actual,
+                1 => actual + 1,
+                2 => actual.saturating_sub(1),
+                _ => rng.next(1000),
+            };
+            let op = OPS[rng.next(5) as usize];
+            run_case(&parsers, rng.next(LAYOUTS as u64) as usize, &format!("{op} {bound}"), op, bound, &seq, &mut cases);
+        }
+        cex_none(
+            "V4",
+            cases,
+            "all sequences of <=7 lines over {x,'','  '} x {<,<=,==,>=,>} x N in 0..=6 (python layout); 6 comment layouts x all sequences of <=4 lines x 5 operators x N in 0..=3 x 2 spellings; 75 no-content / nested cases; 11 malformed expressions; 400 random blocks of 0..=59 lines with N near the count or up to 999",
+        );
+    }
+
+    #[test]
+    fn cex_V4p() {
+        // Grammar-generated spellings: ws* OP ws* NUMERAL ws*, plus near misses.
+        let ws = ["", " ", "  ", "\t"];
+        let numerals = ["0", "1", "5", "6", "10", "007", "50", "18446744073709551615", "18446744073709551616", "99999999999999999999999"];
+        let mut exprs: Vec<String> = Vec::new();
+        for a in ws {
+            for op in ["<", "<=", "==", ">=", ">", "=", "=<", "=>", "!=", "<>", "", "<<", "===", "< =", "> =", "= ="] {
+                for b in ws {
+                    for n in numerals {
+                        for c in ws {
+                            exprs.push(format!("{a}{op}{b}{n}{c}"));
+                        }
+                    }
+                }
+            }
+        }
+        for junk in ["", " ", "<", "<=", "==", ">=", ">", "< x", "<5x", "<x5", "< 5 6", "< 5,6", "< -1", "<- 1", "< 1.5", "<1e3", "< 0x10", "five", "<\u{0665}", "\u{2264}5", "< ", "<=\n5", "<\n=5", "< 5 <", "lt 5", "<5>"] {
+            exprs.push(junk.to_string());
+        }
+        let mut cases = 0u64;
+        for e in &exprs {
+            let expected = ref_parse(e);
+            let observed = parse_constraint(e).ok().map(|(op, n)| (op.as_str(), n as u64));
+            cases += 1;
+            if expected != observed {
                 cex_fail(
-                    "V3",
-                    "line-pattern: an uncompilable regex on a block with content is an error",
-                    json!({"file_name": "f.py", "file_text": text}),
-                    json!({"error": "any"}),
-                    outcome_json(&observed),
+                    "V4p",
+                    "parse_constraint(s) is Ok((op, n)) exactly when trim(s) = operator (longest first) . optional blanks . decimal numeral that fits; else Err",
+                    json!({"line-count": e}),
+                    json!(expected.map_or(json!("Err"), |(o, n)| json!({"op": o, "n": n}))),
+                    json!(observed.map_or(json!("Err"), |(o, n)| json!({"op": o, "n": n}))),
                 );
             }
         }
-        // (e) longer random blocks.
-        let mut rng = Lcg::from_env();
-        for _ in 0..600 {
-            let len = 6 + rng.next(12) as usize;
-            let seq: Vec<&str> = (0..len).map(|_| alphabet[rng.next(9) as usize]).collect();
-            // bias towards long matching prefixes: replace non-matching lines by `ab` with probability 3/4
-            let pat = &PATTERNS[rng.next(5) as usize];
-            let seq: Vec<&str> = seq
-                .into_iter()
-                .map(|l| if trimmed_span(l).is_some_and(|(a, b)| !(pat.matches)(&l[a..b])) && rng.next(4) != 0 { "  ab " } else { l })
-                .collect();
-            run_case(&parsers, rng.next(LAYOUTS as u64) as usize, pat, &seq, &mut cases);
+        cex_none("V4p", cases, "4 leading blanks x 16 operator-like tokens x 4 inner blanks x 10 numerals (incl. leading zeros, usize::MAX, overflow) x 4 trailing blanks + 26 near misses; `+5`-style signed numerals are NOT enumerated");
+    }
+
+    #[test]
+    fn cex_V4a() {
+        let table = [(Op::Lt, "<"), (Op::Le, "<="), (Op::Eq, "=="), (Op::Ge, ">="), (Op::Gt, ">")];
+        let mut cases = 0u64;
+        for (op, token) in table {
+            cases += 1;
+            if op.as_str() != token {
+                cex_fail("V4a", "Op::as_str must print the operator token the expression was written with", json!({"op": token}), json!(token), json!(op.as_str()));
+            }
+            // round trip through the parser and back
+            for n in [0usize, 3, 12] {
+                cases += 1;
+                let round = parse_constraint(&format!("{}{n}", op.as_str())).ok().map(|(o, m)| (o.as_str(), m));
+                if round != Some((token, n)) {
+                    cex_fail(
+                        "V4a",
+                        "printing an operator and parsing it back must give the same operator and bound",
+                        json!({"line-count": format!("{}{n}", op.as_str())}),
+                        json!({"op": token, "n": n}),
+                        json!(round.map_or(json!("Err"), |(o, m)| json!({"op": o, "n": m}))),
+                    );
+                }
+            }
         }
-        cex_none(
-            "V3",
-            cases,
-            "all sequences of <=3 lines over {ab,'  ab','ab  ',xab,abx,'','  ',cab,'a b'} x patterns {^ab$, ab, ^a, b$, ^[a-c]+$, ^z$}, all 4-line sequences x {^ab$, ^a, b$}; all sequences of 4..=5 lines over 4 lines x 2 patterns; 6 comment layouts x sequences of <=2 lines x 2 patterns; 2 malformed-regex cases; 600 random blocks of 6..=17 lines",
-        );
+        cex_none("V4a", cases, "the 5 operators: token table and print/parse round trip with N in {0,3,12}");
     }
 }
